@@ -201,6 +201,25 @@ def F21():
     return None
 
 
+def F22():
+    """C10/C09: disconnect() called before the CONNACK is processed (DISCONNECT still queued) ->
+    CONNACK flips the state to CONNECTED; after DISCONNECT is written the socket is gone,
+    is_connected() stays True and loop_forever() would reconnect."""
+    w = World()
+    c = mk_client(w)
+    for n in ("on_socket_open", "on_socket_close", "on_socket_register_write", "on_socket_unregister_write"):
+        setattr(c, n, lambda cl, ud, sock: None)
+    c.connect("broker", 1883, 60)
+    c.loop_write()
+    c.disconnect()                      # external event loop: DISCONNECT is queued, not written yet
+    w.cur().feed(wire.enc_connack(4))
+    c.loop_read()
+    c.loop_write()
+    if c.socket() is None and c._state not in (pc._ConnectionState.MQTT_CS_DISCONNECTED,):
+        return f"DISCONNECT written and socket closed, but state is {c._state.name} (is_connected={c.is_connected()})"
+    return None
+
+
 def F8():
     """C06: WebSocket, transport accepts 5 bytes of a frame -> packet dropped from the queue."""
     w = World()
@@ -391,7 +410,7 @@ def F18():
 
 
 ALL = {"F1": F1, "F2": F2, "F3": F3, "F4": F4, "F4b": F4b, "F5": F5, "F6": F6, "F7": F7, "F8": F8, "F9": F9,
-       "F10": F10, "F19": F19, "F20": F20, "F21": F21, "F11": F11, "F12": F12, "F13": F13, "F15": F15, "F16": F16, "F17": F17, "F18": F18}
+       "F10": F10, "F19": F19, "F20": F20, "F21": F21, "F22": F22, "F11": F11, "F12": F12, "F13": F13, "F15": F15, "F16": F16, "F17": F17, "F18": F18}
 
 
 def run(name):
